@@ -186,6 +186,14 @@ fn build_rhs(b: &Key, g: u16, spec: &Rhs, captured: &Val, refs: &Refs, stash: &S
             stash.borrow_mut().insert(Key::inner(b, g, 0), n.weak());
             n
         }
+        Rhs::FV(current_scope) => {
+            let st = state.upgrade().expect("state alive inside a bind closure");
+            let var = if *current_scope { st.var_current_scope(captured.clone()) } else { st.var(captured.clone()) };
+            let n = var.watch();
+            drop(var);
+            stash.borrow_mut().insert(Key::inner(b, g, 0), n.weak());
+            n
+        }
         Rhs::FG(x) => {
             {
                 let throwaway = refs[x].map(|x: &Val| x.clone());
